@@ -562,8 +562,10 @@ func (s *scanningState) scan(line []byte) (bool, error) {
 				return true, nil
 			}
 		}
-		// Switch to race detection mode.
-		if bytes.Equal(trimmed, raceHeaderFooter) {
+		// Switch to race detection mode. A race report cannot start in the middle
+		// of a goroutine dump: there the separator ends the dump and is returned
+		// unconsumed, so the next scan parses the report.
+		if s.state == looking && bytes.Equal(trimmed, raceHeaderFooter) {
 			// TODO(maruel): We should buffer it in case the next line is not a
 			// WARNING so we can output it back.
 			s.state = gotRaceHeader1
